@@ -312,6 +312,9 @@ func (e *Engine) witnessPackage(repo, work string, pkg *ssa.Package, specs []Wit
 			continue
 		}
 		fs := e.witnessFunction(ws, ss, &rep, cmdline, secs)
+		for i := range fs {
+			fs[i].Generated = src
+		}
 		failures = append(failures, fs...)
 		reports = append(reports, rep)
 	}
@@ -376,8 +379,6 @@ func (e *Engine) witnessEnv(fn *ssa.Function, con *FuncContract, s witnessSample
 	}
 	old := &Env{vars: env.vars, st: st}
 	env.old = old
-	// Go compares strings bytewise; contracts only use the order's axioms, concrete instances need its definition
-	st.facts = append(st.facts, witnessLexOrder)
 	return env, st, desc
 }
 
@@ -401,6 +402,10 @@ func (e *Engine) witnessFunction(ws WitnessSpec, ss []witnessSample, rep *Witnes
 	}
 	prove := func(tag string, st *State, goal string, t int) string {
 		script := e.buildScript(st.decls, st.facts, goal, true)
+		if strings.Contains(script, "gs.lt") {
+			// Go compares strings bytewise; contracts only use the order's axioms, concrete instances need its definition
+			script = e.buildScript(st.decls, append(append([]string{}, st.facts...), witnessLexOrder), goal, true)
+		}
 		r := raceSolvers(e.workdir, tag, script, t, false)
 		return r.Status
 	}
@@ -428,7 +433,24 @@ func (e *Engine) witnessFunction(ws WitnessSpec, ss []witnessSample, rep *Witnes
 				for _, r := range con.Requires {
 					gs = append(gs, e.cevalBool(r.E, env))
 				}
-				ok = prove(fmt.Sprintf("%s_witness_pre_%d", ws.Func, i), st, and(gs...), 5) == "unsat"
+				// decided either way: the precondition follows, or its negation does
+				pre := and(gs...)
+				yes := make(chan bool, 2)
+				go func() { yes <- prove(fmt.Sprintf("%s_witness_pre_%d", ws.Func, i), st, pre, 5) == "unsat" }()
+				no := make(chan bool, 2)
+				go func() { no <- prove(fmt.Sprintf("%s_witness_npre_%d", ws.Func, i), st, not(pre), 5) == "unsat" }()
+				select {
+				case ok = <-yes:
+					if !ok {
+						<-no
+					}
+				case rejected := <-no:
+					if rejected {
+						ok = false
+					} else {
+						ok = <-yes
+					}
+				}
 			}
 			if ok {
 				mu.Lock()
@@ -508,7 +530,7 @@ func (e *Engine) witnessFunction(ws WitnessSpec, ss []witnessSample, rep *Witnes
 			if badStatus == "sat" {
 				what = "the clause is false for this execution of the real function"
 			}
-			failures = append(failures, Failure{Obligation: ws.Func + "/witness/" + label, Class: "execution-contradicts-clause", Input: firstBad.desc, Detail: cl.Src + " — " + what, Backend: "witness", Replay: cmdline})
+			failures = append(failures, Failure{Obligation: ws.Func + "/witness/" + label, Class: "execution-contradicts-clause", Input: firstBad.desc, Detail: "on " + firstBad.desc + ": " + cl.Src + " — " + what, Backend: "witness", Replay: cmdline})
 		}
 	}
 	return failures
